@@ -74,11 +74,6 @@ macro_rules! lookup_or_create {
         if let Ok(var) = $e.lookup_var_mut($name) {
             var
         } else {
-            #[cfg(feature = "verif")]
-            crate::verif::pre(
-                "write_val.lookup_or_create",
-                !$e.verif_innermost_has($name),
-            );
             unsafe { $e.create_var($name).unchecked_unwrap() }
         }
     };
